@@ -756,9 +756,9 @@ func (d *Decoder) decodeArrayToSlice(rv reflect.Value, additional []byte) error 
 	slice := rv
 	switch slice.Kind() {
 	case reflect.Slice:
-		// Set slice to the correct length
-		slice.Grow(int(length))
-		slice.SetLen(int(length))
+		// Grow the slice as items are decoded, so that memory use is bounded
+		// by the items present rather than by the declared length
+		return d.decodeArrayByAppending(rv, slice.Type(), int(length))
 
 	case reflect.Array:
 		// Check array is long enough and clear extra elements
@@ -771,8 +771,7 @@ func (d *Decoder) decodeArrayToSlice(rv reflect.Value, additional []byte) error 
 		}
 
 	case reflect.Interface:
-		slice.Set(reflect.MakeSlice(slice.Elem().Type(), int(length), int(length)))
-		slice = slice.Elem()
+		return d.decodeArrayByAppending(rv, slice.Elem().Type(), int(length))
 
 	default:
 		return fmt.Errorf("%w: expected a slice type",
@@ -789,6 +788,20 @@ func (d *Decoder) decodeArrayToSlice(rv reflect.Value, additional []byte) error 
 		slice.Index(i).Set(newVal.Elem())
 	}
 
+	return nil
+}
+
+func (d *Decoder) decodeArrayByAppending(rv reflect.Value, sliceType reflect.Type, length int) error {
+	slice := reflect.MakeSlice(sliceType, 0, min(length, 64))
+	itemType := sliceType.Elem()
+	for i := range length {
+		newVal := reflect.New(itemType)
+		if err := d.Decode(newVal.Interface()); err != nil {
+			return fmt.Errorf("error decoding array item %d: %w", i, err)
+		}
+		slice = reflect.Append(slice, newVal.Elem())
+	}
+	rv.Set(slice)
 	return nil
 }
 
